@@ -11,7 +11,8 @@ ENTRY_POINTS = ('spawn', 'spawn_owning', 'spawn_default', 'spawn_on_stream', 'bu
                 'build_recreate_spawn', 'build_non_restartable_spawn', 'build_stream_spawn', 'build_bounded_stream_spawn',
                 'build_stream_spawn_owning', 'from_registry', 'build_register')
 # entry points used by the restart-strategy programs (C07) only
-MORE_ENTRY_POINTS = ('build_recreate_spawn_owning', 'build_non_restartable_spawn_owning', 'build_timeout_spawn_owning')
+MORE_ENTRY_POINTS = ('build_recreate_spawn_owning', 'build_non_restartable_spawn_owning', 'build_timeout_spawn_owning', 'build_timeout_spawn',
+                     'build_timeout_register')
 # the strategy the user asked for, by the meaning of the builder chain (what the oracle expects)
 CONFIGURED = {'build_recreate_spawn': 'RecreateFromDefault', 'build_recreate_spawn_owning': 'RecreateFromDefault',
               'build_non_restartable_spawn': 'NonRestartable', 'build_non_restartable_spawn_owning': 'NonRestartable',
@@ -19,9 +20,47 @@ CONFIGURED = {'build_recreate_spawn': 'RecreateFromDefault', 'build_recreate_spa
 STRATEGY = CONFIGURED
 
 
+BLOCKING_ENTRY_POINTS = ('spawn', 'build_non_restartable_spawn', 'spawn_owning')
+# runtimes whose block_on is a re-export of the runtime's own function (no hannibal code to execute): contract
+BLOCK_ON_CONTRACT = {'async_runtime': ('multi_thread', 'async_std::task::block_on drives the future on the calling thread; async_std::task::spawn runs tasks on the global executor threads'),
+                     'smol_runtime': ('multi_thread', 'smol::block_on drives the future on the calling thread; smol::spawn runs tasks on the global executor thread(s)')}
+
+
+def block_on_flavor(sy, feat):
+    """what kind of runtime hannibal::runtime::block_on hands the program to: executed from the MIR of
+    runtime::block_on where hannibal has code there (tokio), the runtime's contract where it is a re-export"""
+    fns = [f for f in sy.eng.functions if f.name == 'runtime::block_on']
+    if not fns:
+        if feat in BLOCK_ON_CONTRACT:
+            return BLOCK_ON_CONTRACT[feat][0], 'contract: ' + BLOCK_ON_CONTRACT[feat][1]
+        raise Unsupported(f"{feat}: hannibal::runtime::block_on has no MIR body and no contract")
+    p = RegistryProgram(sy, None, {}, max_steps=10)
+    st = State()
+    st, _r = p.call_fn(st, fns[0], [VSym('main_future', 'F')])
+    fl = [e[1] for e in st.events if e[0] == 'rt_block_on']
+    if len(fl) != 1:
+        raise Unsupported(f"{feat}: runtime::block_on did not hand its future to exactly one modelled runtime ({fl})")
+    return fl[0], 'executed runtime::block_on'
+
+
+def blocking_ops(ep):
+    h = 'addr'
+    pre = [('entry', ep)] + ([('to_addr', 'o', 'addr')] if ep.endswith('owning') else [])
+    return pre + [('block_until', 'started'), ('stop', h), ('block_until', 'stopped')]
+
+
 class EntryProgram(RegistryProgram):
+    def setup(self):
+        st = super().setup()
+        if any(op[0] == 'block_until' for sc in self.scripts.values() for op in sc):
+            self.sys.progress(st)
+        return st
+
     def start_op(self, st, name, pc, op):
         k = op[0]
+        if k == 'block_until':
+            yield st, VAgg(name='leaf', extra={'kind': 'blockwait', 'n': op[1]})
+            return
         if k != 'entry':
             yield from super().start_op(st, name, pc, op)
             return
@@ -85,7 +124,7 @@ class EntryProgram(RegistryProgram):
                 s2, o = self.call_named(s2, 'spawn_owning', 'StreamActorBuilder', b); yield done(s2, o, 'o')
             else:
                 s2, a = self.call_named(s2, 'spawn', 'StreamActorBuilder', b); yield done(s2, a)
-        elif ep == 'build_register':
+        elif ep in ('build_register', 'build_timeout_register'):
             s2, b = builder(st)
             s2, b = self.call(s2, 'BaseActorBuilder::<A, P>::unbounded', [b])
             s2, fut = self.call_named(s2, 'register', 'ActorBuilderWithChannel', b)
@@ -96,8 +135,8 @@ class EntryProgram(RegistryProgram):
         else:
             raise Unsupported(f"unknown entry point {ep}")
 
-    def call_fn(self, st, fn, args, allow_fork=False):
-        r = super().call_fn(st, fn, args, allow_fork)
+    def call_fn(self, st, fn, args, allow_fork=False, tsub=None):
+        r = super().call_fn(st, fn, args, allow_fork, tsub=tsub)
         # the builder's *type* carries the restart strategy: a builder method returning
         # ActorBuilderWithChannel<A, P, X> binds R := X for every later call on that value (monomorphisation)
         import re
@@ -151,6 +190,8 @@ def oracle_entry(tr, status, ep):
             v.append(f"after {ep}: awaiting the stopped actor yielded {o['result']}")
         if o['kind'] == 'join' and o['end'] is not None and not str(o['result']).startswith('Some'):
             v.append(f"after {ep}: join after a graceful stop yielded {o['result']}")
+        if o['kind'] == 'block_until' and o['end'] is None and status in ('quiescent', 'bound'):
+            v.append(f"after {ep} returned the actor did not reach {o['arg']}() while the spawning task was waiting for it without yielding: inside hannibal::runtime::block_on the actor does not run on its own")
     if any(e[0] == 'task_cancelled' for e in tr):
         v.append(f"{ep}: the actor task was cancelled ({[e for e in tr if e[0] == 'task_cancelled'][0][2]})")
     return v
